@@ -375,7 +375,15 @@ def run(tier):
     rep.floor("committed fields", 5)
     # ---------------- R5 nothing is recorded for an attempt that execute rejects
     import attempts
-    ar = attempts.analyse()
+    try:
+        ar = attempts.analyse()
+    except AnalysisBroken as e_:
+        # the shape R5 reads (update() in the then-arm, revert() in the else-arm of one branch of execute) is gone; when R1 has already
+        # reported why (a rejected attempt that is not reverted), that report stands and R5 is not evaluated
+        if rep.violations:
+            rep.extra["R5_not_evaluated"] = str(e_)
+            return rep
+        raise
     rep.extra["acceptance_test"] = {"where": rel(ar["loc"]), "condition": ar["cond"], "atoms": [list(a) for a in ar["atoms"]],
                                     "accepted_under": [attempts.describe(dict(zip(ar["atoms"], v))) for v, acc in ar["table"].items() if acc]}
     for q, o_ in sorted(ar["funcs"].items()):
